@@ -119,7 +119,7 @@ const c09Rule = "rapid draws a warrior (length 1..20, thorough up to 300; every 
 
 func TestC09(t *testing.T) {
 	hx.Run(t, hx.Prop[loadCase]{
-		ID: "C09", Sub: "roundtrip", Rule: c09Rule, Checks: hx.Scale(12000, 800000),
+		ID: "C09", Sub: "roundtrip", Rule: c09Rule, Checks: hx.Scale(12000, 6000000),
 		Gen: genLoadCase, Judge: judgeLoadCase,
 	})
 }
